@@ -98,6 +98,30 @@ CHECKS = {
                     "never depended on segmentation, and nothing crashed or hung."),
         level_note="The reference model is ~40 lines written from the README/property; byte-level fuzzing only checks invariance/no-crash.",
     ),
+    "C07": dict(
+        inpkg="internal/streams/dns", src=["inpkg_dnssim", "inpkg_c07"],
+        level="fault_enumeration",
+        technique="model-based stateful property testing (rapid) of a real DNS-tunnel client/server pair over a simulated lossy path with per-exchange generated fates; prefix/exactly-once history invariant",
+        rule=("case = generated history on a real ServerDnsListener + real ClientDnsConnection joined by a simulated path that runs "
+              "every message through real Pack/Unpack: actions clientWrite(n), serverWrite(n), poll (the body of the real poll "
+              "loop), read; every exchange gets a fate {delivered, query lost, answer lost, query duplicated, old query replayed "
+              "(age <= 300)} drawn at that moment (0-40% faults; half of the histories forbid two lost exchanges in a row); "
+              "fragment sizes 1..1200, write sizes <,=,>,>> fragment size, starting sequence numbers over the 16-bit range "
+              "(biased to 65335..65535); loss-free tail. Losses are returned as the real communicator's time-out error value. "
+              "Oracle: bytes read at each end are a prefix of what the peer's writes were given; after the tail they equal the "
+              "accepted prefixes (n of each Write); Write with err==nil delivered fully; isolated losses never fail a Write; "
+              "every Write terminates. A separate run pushes >66000 packets per direction (fragment 1-2) with sparse isolated "
+              "faults (sequence wrap). non-trivial = history with a non-delivered fate and a write spanning > 1 fragment"),
+        assumptions=["the client's poll goroutine is replaced by harness-driven polls (same code path: SendAndReceive(out.NextChunk()))",
+                     "losses use the real time-out error shape of NetConnectionClientCommunicator"],
+        quick=dict(run=".", checks=500, steps=60, timeout=900),
+        thorough=dict(run=".", checks=5000, steps=120, timeout=3000, shards=8),
+        design_ref="DESIGN.md 2/C07",
+        level_text=("Generated fault histories against the real queues, serializers and command handlers. A green run means no generated "
+                    "history produced a gap, repeat or reordering, lost an accepted byte, failed a Write on an isolated loss or "
+                    "hung a Write - including across the 16-bit sequence wrap."),
+        level_note="Single-threaded driving of the client (the background poller's timing is not explored here).",
+    ),
     "C08": dict(
         pkg="c08",
         level="exploration",
